@@ -171,6 +171,7 @@ pub fn pair_corpus() -> Vec<Value> {
         }
     }
     v.extend(s_uni_sample());
+    v.extend(ws_strings());
     v.extend(many(&[r#"["1","2"]"#, "[1.0]", "[1e21]", r#"[" 1 "]"#, r#"["0x10"]"#, "[true]", "[false]", r#"[{}]"#, r#"[""]"#, "[-0.0]", "[[2],[3]]", r#"{"b":1}"#]));
     dedup(v)
 }
@@ -408,4 +409,69 @@ pub fn stringified() -> Vec<Value> {
         out.push(json!(serde_json::to_string_pretty(&v).unwrap()));
     }
     dedup(out)
+}
+
+
+/// White-space candidates: every character with the Unicode White_Space property, every ECMAScript
+/// WhiteSpace / LineTerminator, and the characters commonly taken for one of those (zero-width
+/// characters, the C0 information separators that Python's str.isspace accepts, NUL).
+pub fn ws_candidates() -> Vec<char> {
+    let mut v: Vec<char> = vec!['\u{9}', '\u{a}', '\u{b}', '\u{c}', '\u{d}', ' ', '\u{85}', '\u{a0}', '\u{1680}', '\u{180e}'];
+    for c in 0x2000u32..=0x200d {
+        v.push(char::from_u32(c).unwrap());
+    }
+    v.extend(['\u{2028}', '\u{2029}', '\u{202f}', '\u{205f}', '\u{2060}', '\u{3000}', '\u{feff}', '\u{1c}', '\u{1d}', '\u{1e}', '\u{1f}', '\u{0}', '\u{7f}', '\u{ad}']);
+    v
+}
+
+/// "1" wrapped in each candidate, and each candidate alone.
+pub fn ws_strings() -> Vec<Value> {
+    let mut out = Vec::new();
+    for c in ws_candidates() {
+        out.push(Value::String(format!("{}1{}", c, c)));
+        out.push(Value::String(c.to_string()));
+    }
+    out
+}
+
+
+/// Radix literals as *families*: for each radix and each digit count around the 32 / 64 / 128-bit
+/// accumulator widths - all digits zero, all digits maximal, a single one at the top, a single one at
+/// the bottom, alternating. Conversions that accumulate in a fixed-width register (or normalise by
+/// shifting until a top bit appears) misbehave on exactly one member of a family.
+pub fn radix_families() -> Vec<Value> {
+    let mut out = Vec::new();
+    for (prefix, maxd, counts) in [("0x", 'f', vec![7usize, 8, 9, 15, 16, 17, 31, 32, 33, 40]), ("0o", '7', vec![10, 11, 21, 22, 23, 42, 43, 44]), ("0b", '1', vec![31, 32, 33, 63, 64, 65, 127, 128, 129])] {
+        for n in counts {
+            let zeros = "0".repeat(n);
+            let maxs = maxd.to_string().repeat(n);
+            let top = format!("1{}", "0".repeat(n - 1));
+            let bottom = format!("{}1", "0".repeat(n - 1));
+            let alt: String = (0..n).map(|i| if i % 2 == 0 { '1' } else { '0' }).collect();
+            for body in [zeros, maxs, top, bottom, alt] {
+                out.push(Value::String(format!("{}{}", prefix, body)));
+            }
+        }
+    }
+    out
+}
+
+/// Every scalar class wrapped in arrays of depth 1 and 2 ("[x] is x" holds for the string form of x, not
+/// for x itself: [true] is "true", which is no number).
+pub fn wrapped_scalars() -> Vec<Value> {
+    let mut out = Vec::new();
+    for x in many(&["true", "false", "null", r#""""#, r#""a""#, r#""5""#, "5", "{}", "[]", "-0.0", r#"" 7 ""#, r#""0x10""#, r#""12px""#, "1.5", r#""true""#, r#""Infinity""#]) {
+        out.push(json!([x]));
+        out.push(json!([[x]]));
+    }
+    out
+}
+
+/// Widths beyond every small-size regime: 15 / 16-bit counts and typical allocation caps.
+pub fn width_classes(thorough: bool) -> Vec<usize> {
+    if thorough {
+        vec![4096, 32767, 32768, 32769, 65535, 65536, 65537, 100_000, 1_048_577]
+    } else {
+        vec![32769, 65537, 100_000]
+    }
 }
